@@ -11,8 +11,10 @@ import (
 	"os"
 	"runtime/debug"
 	"sort"
+	"strconv"
 	"strings"
 	"testing"
+	"time"
 
 	"pgregory.net/rapid"
 )
@@ -203,7 +205,18 @@ func vRunProp[C any](t *testing.T, id string, gen func(*rapid.T) *C, check func(
 	st := newVStats(id)
 	defer st.flush()
 	known := loadKnownSigs()
+	// soft time budget (seconds): once it is used up the remaining cases are not run, the evidence shows fewer
+	// evaluations than requested and the driver reports the run as inconclusive - never as a violation
+	var budget time.Duration
+	if v, err := strconv.Atoi(os.Getenv("VERIF_BUDGET_S")); err == nil && v > 0 {
+		budget = time.Duration(v) * time.Second
+	}
+	start := time.Now()
 	rapid.Check(t, func(rt *rapid.T) {
+		if budget > 0 && time.Since(start) > budget && !st.frozen {
+			st.Extra["time_budget_hit"] = true
+			return
+		}
 		c := gen(rt)
 		if !st.frozen {
 			st.Evaluations++
